@@ -481,10 +481,10 @@ def run_registry(prop, tier, seed):
         import algebra
         algebra.run_algebra(v, "C02", seed)
     # deep random behaviours from TLC's simulator, replayed the same way
-    n, d = (150, 8) if q else (3000, 12)
+    n, d = (150, 8) if q else ((3000, 12) if prop == "C15" else (2000, 12))     # universe 2 generates slowly (≈ 1 behaviour/s)
     ops = "" if prop in ("C01", "C02") else "codec"
     simu = 1 if (q or prop == "C15") else 2
-    res = tlc_registry("sim", d, ops=ops, universe=simu, simulate=n, seed=seed, seeds=0 if q else 1)
+    res = tlc_registry("sim", d, ops=ops, universe=simu, simulate=n, seed=seed, seeds=0 if q else 1, timeout=6000)
     require_ok(res, "MC_Registry[simulate]")
     v.add_tlc(res, "MC_Registry[simulate num=%d depth=%d ops=%s]" % (n, d, ops or "all"))
     hists = [[e for e in b if e["op"] != "init"] for b in res.behaviours]
